@@ -134,3 +134,64 @@ func TestParallel(t *testing.T) {
 		}
 	}
 }
+
+// TestConcurrentShrinks: two goroutines, each with its own handle on one file, shrink it at the same moment to two
+// different sizes.  Whatever the schedule, the file afterwards is what one of the two orders leaves: the smaller
+// prefix, or the smaller prefix zero-extended to the larger size -- never bytes that the deeper shrink had removed.
+func TestConcurrentShrinks(t *testing.T) {
+	fs, err := mem.NewFS()
+	if err != nil {
+		t.Fatal(err)
+	}
+	orig := []byte("abcdefghijklmnop")
+	deadline := time.Now().Add(budget() * 2 / 3)
+	trials, bad := 0, ""
+	for time.Now().Before(deadline) && bad == "" {
+		trials++
+		if err := hackpadfs.WriteFullFile(fs, "t", orig, 0o644); err != nil {
+			t.Fatal(err)
+		}
+		s1 := int64(trials % len(orig))
+		s2 := int64((trials / 3) % len(orig))
+		if s1 == s2 {
+			continue
+		}
+		start := make(chan struct{})
+		var wg sync.WaitGroup
+		for _, s := range []int64{s1, s2} {
+			s := s
+			f, err := hackpadfs.OpenFile(fs, "t", hackpadfs.FlagReadWrite, 0)
+			if err != nil {
+				t.Fatal(err)
+			}
+			wg.Add(1)
+			go func() {
+				defer wg.Done()
+				defer f.Close()
+				<-start
+				if err := hackpadfs.TruncateFile(f, s); err != nil {
+					bad = fmt.Sprintf("Truncate(%d): %v", s, err)
+				}
+			}()
+		}
+		close(start)
+		wg.Wait()
+		got, err := hackpadfs.ReadFile(fs, "t")
+		if err != nil {
+			t.Fatal(err)
+		}
+		lo, hi := s1, s2
+		if lo > hi {
+			lo, hi = hi, lo
+		}
+		a := orig[:lo]                                                         // larger first, then smaller
+		b := append(append([]byte(nil), orig[:lo]...), make([]byte, hi-lo)...) // smaller first, then the larger one grows it again
+		if !bytes.Equal(got, a) && !bytes.Equal(got, b) {
+			bad = fmt.Sprintf("concurrent Truncate(%d) and Truncate(%d) of %q left %q: neither %q nor %q (trial %d)", s1, s2, orig, got, a, b, trials)
+		}
+	}
+	if bad != "" {
+		t.Fatalf("VERIF-PROBLEM: %s", bad)
+	}
+	t.Logf("%d trials", trials)
+}
